@@ -324,7 +324,9 @@ func (g *untypedGen) blockNoContinue(depth int) string {
 
 // expressions that fail whenever they are evaluated (the fault kinds the property names)
 var faultExprs = []string{"1 % 0", "1 / 0", "nope", "n.x", "s.x.y", `"a".repeat(-1)`, `"a".repeat("x")`, `1 + "a"`, `-"a"`, `"a".nosuchfunc()`, "arr.len(1, 2).x", "(nan--).x",
-	"{ nope }.nope", "{ a: 1, nope }.a", "[1, nope]", "{k: nope}.k", "(nope ? 1 : 2)", "(true ? nope : 1)", "obj[nope]", "!nope", "arr[nope]", `"a".repeat(nope)`, "-nope", "nope++", "{ s, nope }"}
+	"{ nope }.nope", "{ a: 1, nope }.a", "[1, nope]", "{k: nope}.k", "(nope ? 1 : 2)", "(true ? nope : 1)", "obj[nope]", "!nope", "arr[nope]", `"a".repeat(nope)`, "-nope", "nope++", "{ s, nope }",
+	// literals that occur, fault-free, on earlier lines too
+	"nil + 1", "nil.x", "-nil", "true + 1", "false.x", "1.nofn()", "\"\".nofn()", "[].x", "{}.x"}
 
 // places of a template tree an expression F can stand in; evaluated says whether the place is reached
 var faultPlaces = []struct {
@@ -688,7 +690,7 @@ func init() {
 			// the line of a run-time fault after k lines that end in LF, CRLF, or hold a stray CR
 			eols := []string{"\n", "\r\n", "\r \n", " \r x\n"}
 			// (lines that hold tokens spanning lines: strings in either quote style, comments, blocks, directive arguments)
-			multi := []string{"a line", "{{ \"two\nlines\" }}", "{{ 'two\nlines' + \"x\" }}{{-- a\ncomment --}}", "@if(\"a\nb\" ==\n\"c\")x@end{{ [1,\n2].len() }}"}
+			multi := []string{"a line", "{{ q7 = nil }}{{ nil }}{{ true }}{{ false ? 1 : 1 }}{{ \"\" }}{{ [] }}{{ {} }}", "{{ \"two\nlines\" }}", "{{ 'two\nlines' + \"x\" }}{{-- a\ncomment --}}", "@if(\"a\nb\" ==\n\"c\")x@end{{ [1,\n2].len() }}"}
 			secs = append(secs, core.Section{Name: "fault-lines", Exhaustive: true, N: len(faultExprs) * len(eols) * 5 * len(multi),
 				Run: func(c *core.Ctx, i int) {
 					filler := multi[i%len(multi)]
